@@ -131,6 +131,12 @@ def stepProd (s : St) (id : Nat) (pc : PPc) (cur : Nat) (script : List Nat) : Li
     if s.queue.length < s.qsize then
       [({ s with queue := s.queue ++ [cur], snt := upd s.snt cur (s.snt cur + 1), win := s.win - 1 },
         .prod id .ret cur script)]
+    else if s.qsize = 0 ∧ s.wpc = .sel then
+      [({ s with snt := upd s.snt cur (s.snt cur + 1), rcv := upd s.rcv cur (s.rcv cur + 1), wcur := cur, wpc := .addReset,
+                 win := s.win - 1 }, .prod id .ret cur script)]
+    else if s.qsize = 0 ∧ s.wpc = .fsel then
+      [({ s with snt := upd s.snt cur (s.snt cur + 1), rcv := upd s.rcv cur (s.rcv cur + 1), wcur := cur, wpc := .addReset,
+                 win := s.win - 1 }, .prod id .ret cur script)]
     else []
   | .undo => [({ s with count := s.count - 1 }, .prod id .ret cur script)]
   | .ret => [(emit (.enqRet id cur) s, .prod id .idle cur script)]
